@@ -7,7 +7,7 @@ Require Extraction.
 Require Import ExtrOcamlBasic.
 From SwiftMT Require Import Base.Bytes Dispatch.Model Dispatch.Facts Dispatch.Instance.
 From SwiftMT Require Import Dates.DateTime Num.Amount Classify.Model Headers.Hdr12 Headers.Hdr35 Headers.B3 Headers.Blocks Legacy.Block4Map Legacy.Tracker.
-From SwiftMT Require Import Family.Model Family.Instance Rules.Msg Rules.All.
+From SwiftMT Require Import Family.Model Family.Instance Rules.Msg Rules.All Fmt.Model Fmt.Instance.
 From SwiftMT Require Import Base.StrOps Engine.Layout Engine.Tokens Engine.Extract Engine.Instance.
 
 Extraction "swiftmt_model.ml"
@@ -23,4 +23,4 @@ Extraction "swiftmt_model.ml"
   Headers.Blocks.extract_block Headers.Blocks.trailer_display Headers.Blocks.user_header_display Headers.Hdr35.read_tag
   Legacy.Block4Map.parse_block4_fields Legacy.Block4Map.stamp Legacy.Tracker.lookup_variant Legacy.Tracker.split_into_sequences Legacy.Tracker.get_sequence_config
   Family.Model.named_core Family.Model.pwv_core Family.Instance.family_named Family.Instance.ptag Family.Instance.positions
-  Rules.All.validate_rules.
+  Rules.All.validate_rules Fmt.Instance.format_accepts.
